@@ -19,7 +19,13 @@ M == <<109>>  K == <<107>>  Z == <<122>>  V == <<118>>  D == <<100>>  X == <<120
 Q3 == << <<48>>, <<48,46,53>>, <<49>> >>          \* quantile tokens 0 0.5 1
 B2 == << <<49>>, <<50,46,53>> >>                  \* bucket bounds 1 2.5
 
-Cfg(suffix, hist, globals) == [suffix |-> suffix, buckets |-> IF hist THEN B2 ELSE <<>>, quantiles |-> Q3, globals |-> globals]
+B1 == << <<53>> >>                               \* bucket bound 5 (per-metric override)
+MA == <<109, 97>>  ZB == <<122, 98>>              \* "ma" "zb"
+Cfg(suffix, hist, globals) ==
+  [suffix |-> suffix, buckets |-> IF hist THEN B2 ELSE <<>>, overrides |-> <<>>, quantiles |-> Q3, globals |-> globals]
+Ov(kind, pat) == [kind |-> kind, pat |-> pat, buckets |-> B1]
+\* a pattern of the given matcher kind that selects the family "ma" (and not "zb")
+PatFor(kind) == CASE kind = "Full" -> MA [] kind = "Prefix" -> <<109>> [] OTHER -> <<97>>
 Ser(labels) == [labels |-> labels]
 F(kind, name, described, desc, unit, series) ==
   [kind |-> kind, name |-> name, described |-> described, desc |-> desc, unit |-> unit, series |-> series]
@@ -56,6 +62,21 @@ ScopeSet(sc) ==
                 << F(kind, M, descd, D, u, << Ser(<<>>), Ser(<< <<W, X>>, <<K, W>> >>) >>), Tailer >>)
             : sfx \in BOOLEAN, hist \in BOOLEAN, kind \in {"counter", "gauge", "distribution"},
               descd \in BOOLEAN, u \in Units \cup {"none"}}
+    \* per-metric bucket overrides (set_buckets_for_metric), with and without global buckets: a distribution
+    \* that matches the override and one that matches none, in the same scene
+    [] sc = "overrides" ->
+         {Scene([Cfg(sfx, glob, << <<K, V>> >>) EXCEPT !.overrides = << Ov(kind, PatFor(kind)) >>],
+                << F("distribution", MA, descd, D, u, << Ser(<<>>), Ser(<< <<K, W>> >>) >>),
+                   F("distribution", ZB, descd, D, u, << Ser(<<>>) >>), Tailer >>)
+            : sfx \in BOOLEAN, glob \in BOOLEAN, kind \in {"Full", "Prefix", "Suffix"}, descd \in BOOLEAN,
+              u \in {"none", "Seconds", "Count"}}
+    \* the matcher pattern is sanitised like a metric name: every string as Full / Prefix / Suffix pattern
+    \* against a distribution of the same raw name (and one that cannot match)
+    [] sc = "override_pats" ->
+         {Scene([Cfg(FALSE, FALSE, <<>>) EXCEPT !.overrides = << Ov(kind, s) >>],
+                << F("distribution", s, FALSE, <<>>, "none", << Ser(<<>>) >>),
+                   F("distribution", ZB, FALSE, <<>>, "none", << Ser(<<>>) >>) >>)
+            : s \in NE(PairLen), kind \in {"Full", "Prefix", "Suffix"}}
     [] sc = "pair_name_desc" ->
          {Scene(Cfg(FALSE, FALSE, <<>>), << F("counter", a, TRUE, b, "none", << Ser(<<>>) >>) >>) : a \in PNE(PairLen), b \in PStrs(PairLen)}
     [] sc = "pair_key_value" ->
